@@ -76,3 +76,17 @@ Theorem C03_table_filter_is_rulebook : forall p, Rules.wf_pos p ->
   NoDup (filter (accepted p) (table (size p))) /\
   forall m, In m (filter (accepted p) (table (size p))) <-> canonical m /\ exists p', legal_step p m p'.
 Proof. exact table_filter_is_rulebook. Qed.
+
+(* ---- about the functions regenerated from the source (gen/GameGen.v) ---- *)
+From TV Require Import model.PySem proofs.GameGenEq proofs.GameGenCor.
+From TV Require gen.GameGen.
+(* translated all_moves / all_moves_for_size / move: every canonical accepted move is generated once and is a table entry *)
+Theorem C03_source_generator_complete : forall p m p', Rules.wf_pos p -> canonical m -> GameGen.move p m = Ok p' ->
+  exists l t, GameGen.all_moves p = Ok l /\ GameGen.all_moves_for_size (size p) = Ok t /\
+              In m l /\ count_occ mv_eq_dec l m = 1%nat /\ In m t /\ incl l t.
+Proof. exact gen_generator_complete. Qed.
+(* the translated generators ARE the model's lists (order included) *)
+Theorem C03_source_lists_are_model :
+  (forall p, shape p -> size p <= 8 -> GameGen.all_moves p = Ok (Tak.all_moves p)) /\
+  (forall n, n <= 8 -> GameGen.all_moves_for_size n = Ok (table n)).
+Proof. exact (conj gen_all_moves_eq gen_table_eq). Qed.
